@@ -129,7 +129,7 @@ def _build(d, depth):
         t = _andor(d, depth, sp)
     else:
         t = ['NOT', _cond(d, depth, sp)]
-    case = {'tree': t}
+    case = {'tree': t, 'fnspell': d.choice([0, 0, 0, 1, 2, 3, 4])}
     if d.pick(3) == 0:
         # evaluate, change some inputs, evaluate AGAIN on the same evaluator:
         # the second result must follow the new inputs
@@ -183,6 +183,24 @@ def lit(v):
     return repr(v) if v >= 0 else '(%r)' % v
 
 
+# spelling of the function names in the rendered formula (names are matched
+# case-insensitively and an _xlfn. prefix is ignored): per case
+FNSPELL = [0]
+
+
+def _fn(name):
+    k = FNSPELL[0]
+    if k == 1:
+        return name.lower()
+    if k == 2:
+        return name.capitalize()
+    if k == 3:
+        return '_xlfn.' + name
+    if k == 4:
+        return '_xlfn.' + name.lower()
+    return name
+
+
 def render(t):
     k = t[0]
     if k == 'c':
@@ -194,13 +212,14 @@ def render(t):
     if k == 'cmp':
         return '(%s%s%s)' % (render(t[2]), t[1], render(t[3]))
     if k == 'NOT':
-        return 'NOT(%s)' % render(t[1])
+        return '%s(%s)' % (_fn('NOT'), render(t[1]))
     if k == 'IF':
         if t[3] is None:
-            return 'IF(%s,%s)' % (render(t[1]), render(t[2]))
-        return 'IF(%s,%s,%s)' % (render(t[1]), render(t[2]), render(t[3]))
+            return '%s(%s,%s)' % (_fn('IF'), render(t[1]), render(t[2]))
+        return '%s(%s,%s,%s)' % (_fn('IF'), render(t[1]), render(t[2]),
+                                 render(t[3]))
     if k in ('AND', 'OR'):
-        return '%s(%s)' % (k, ','.join(render(a) for a in t[1]))
+        return '%s(%s)' % (_fn(k), ','.join(render(a) for a in t[1]))
     if k == 'spy':
         return 'SPY(%d,%s)' % (t[1], render(t[2]))
     if k == 'poison':
@@ -402,7 +421,11 @@ def judge(case):
     res = Result()
     tree = case['tree']
     xl = lib.lib()
-    text = '=' + render(tree)
+    FNSPELL[0] = case.get('fnspell', 0)
+    try:
+        text = '=' + render(tree)
+    finally:
+        FNSPELL[0] = 0
     cells = {}
     presets = {}
     for a, v in CELLS.items():
